@@ -209,3 +209,8 @@ def c01Check (j : Json) : Except String Json := do
                            ("expected", match expected[k]? with | some m => moveJ m | none => Json.null)])]
 
 end Femto.Driver.GcD
+
+namespace Femto.Driver.GcD
+open Femto Femto.Driver Femto.Ctl Femto.Gc
+
+end Femto.Driver.GcD
